@@ -136,6 +136,10 @@ type Instance struct {
 func (c *CloudProvider) GetInstance(node *v1.Node) (cloudprovider.Instance, error) {
 	var instance *Instance
 
+	// a provider ID that is not of the form aws:///zone/id has no instance id to look up
+	if len(strings.Split(node.Spec.ProviderID, "/")) < 5 {
+		return instance, fmt.Errorf("malformed provider ID %q for node %v", node.Spec.ProviderID, node.Name)
+	}
 	id := providerIDToInstanceID(node.Spec.ProviderID)
 
 	input := &ec2.DescribeInstancesInput{
